@@ -2,9 +2,11 @@ package checks
 
 import (
 	"bytes"
+	"context"
 	"errors"
 	"fmt"
 	"io"
+	"io/fs"
 	"strings"
 
 	"github.com/ipfs/go-cid"
@@ -54,7 +56,7 @@ func (c12) Runs(t Tier) int {
 }
 func (c12) RecordWidths() map[string]int { return nil }
 func (c12) RequiredProbes() []string {
-	return []string{"missing-interior-file-block", "missing-last-leaf", "missing-first-leaf", "missing-last-link-shard", "missing-nested-shard", "lookup-blocked", "lookup-not-blocked-under-fault", "kth-load-transient", "subset-fault", "hamt-depth>=3", "dedup-file-block-faulted", "missing-empty-block", "repeated-lookups-same-node", "file-reread-after-recovery", "iterate-again-after-recovery"}
+	return []string{"missing-interior-file-block", "missing-last-leaf", "missing-first-leaf", "missing-last-link-shard", "missing-nested-shard", "lookup-blocked", "lookup-not-blocked-under-fault", "kth-load-transient", "subset-fault", "hamt-depth>=3", "dedup-file-block-faulted", "missing-empty-block", "repeated-lookups-same-node", "file-reread-after-recovery", "iterate-again-after-recovery", "well-known-error-value"}
 }
 
 type c12Scenario struct {
@@ -73,9 +75,30 @@ type faultPlan struct {
 	targets []cid.Cid // persistent: every request for these fails
 	kth     int       // >=0: the kth read request fails once (transient)
 	after   int
+	flavour int // 0: opaque injected error; 1..3: well-known error values, see flavourErr
+}
+
+// flavourErr returns the error value a real store might fail with. Code that
+// special-cases such values (treats ErrUnexpectedEOF as "short file", skips
+// ErrNotExist, retries deadline errors) must still report them.
+func flavourErr(f int, c string) error {
+	switch f {
+	case 1:
+		return io.ErrUnexpectedEOF
+	case 2:
+		return &fs.PathError{Op: "open", Path: "/blocks/" + c, Err: fs.ErrNotExist}
+	case 3:
+		return fmt.Errorf("read block %s: %w", c, context.DeadlineExceeded)
+	}
+	return nil
 }
 
 func (p faultPlan) String() string {
+	if p.flavour > 0 {
+		q := p
+		q.flavour = 0
+		return q.String() + " failing with " + []string{"", "io.ErrUnexpectedEOF", "*fs.PathError{fs.ErrNotExist}", "wrapped context.DeadlineExceeded"}[p.flavour]
+	}
 	if p.kth >= 0 {
 		return fmt.Sprintf("%s@load#%d(once)", p.kind, p.kth)
 	}
@@ -129,9 +152,9 @@ func (p faultPlan) install(st *store.Store) func() []cid.Cid {
 			if len(data) > 0 {
 				after = p.after % len(data)
 			}
-			return &store.ReadFault{Kind: store.EIOMid, After: after}
+			return &store.ReadFault{Kind: store.EIOMid, After: after, Err: flavourErr(p.flavour, shortCid(c))}
 		}
-		return &store.ReadFault{Kind: p.kind}
+		return &store.ReadFault{Kind: p.kind, Err: flavourErr(p.flavour, shortCid(c))}
 	}
 	return func() []cid.Cid { return hit }
 }
@@ -153,8 +176,11 @@ func isLoadError(err error) bool {
 	if errors.As(err, &hm) {
 		return true
 	}
+	if errors.Is(err, io.ErrUnexpectedEOF) || errors.Is(err, fs.ErrNotExist) || errors.Is(err, context.DeadlineExceeded) {
+		return true // the flavoured injections
+	}
 	msg := err.Error()
-	return strings.Contains(msg, "simstore injected") || strings.Contains(msg, "hash mismatch")
+	return strings.Contains(msg, "simstore injected") || strings.Contains(msg, "hash mismatch") || strings.Contains(msg, "/blocks/") || strings.Contains(msg, "deadline exceeded") || strings.Contains(msg, "unexpected EOF")
 }
 
 func isNotFoundResult(err error) bool {
@@ -375,6 +401,10 @@ func (c12) runFile(ts *tape.Set, tier Tier) *Result {
 			plans = append(plans, faultPlan{kind: k, targets: []cid.Cid{b}, kth: -1, after: int(subsetSeed>>uint(i)) & 0xffff})
 		}
 	}
+	for i, b := range blocks {
+		kind := []store.FaultKind{store.EIOOpen, store.EIOMid, store.NotFound}[i%3]
+		plans = append(plans, faultPlan{kind: kind, targets: []cid.Cid{b}, kth: -1, after: i * 13, flavour: 1 + i%3})
+	}
 	for k := 1; k < nLoads; k++ { // load 0 is the root
 		kind := faultKinds[k%len(faultKinds)]
 		plans = append(plans, faultPlan{kind: kind, kth: k, after: k * 7})
@@ -419,6 +449,9 @@ func (c12) runFile(ts *tape.Set, tier Tier) *Result {
 			continue
 		}
 		res.NonTrivial = true
+		if p.flavour > 0 {
+			res.probe("well-known-error-value")
+		}
 		// expected prefix
 		var okLens map[int64]bool
 		if p.kth >= 0 {
@@ -570,6 +603,10 @@ func (c12) runDir(ts *tape.Set, tier Tier) *Result {
 		for i, k := range faultKinds {
 			plans = append(plans, faultPlan{kind: k, targets: []cid.Cid{b}, kth: -1, after: int(probeSeed>>uint(i)) & 0xffff})
 		}
+	}
+	for i, b := range shards {
+		kind := []store.FaultKind{store.EIOOpen, store.EIOMid, store.NotFound}[i%3]
+		plans = append(plans, faultPlan{kind: kind, targets: []cid.Cid{b}, kth: -1, after: i * 13, flavour: 1 + i%3})
 	}
 	for i := 0; i < 6 && len(shards) >= 2; i++ {
 		n := 2 + int(pr.Next()%2)
